@@ -277,6 +277,10 @@ def gen_case(rng, ctx):
         if not first_run:
             udoc = derive_user(rng, ddoc, 3) if rng.random() < 0.85 else gen_doc(rng, 2, False)
             utext = emit(rng, udoc, ufeats)
+            if rng.random() < 0.06:
+                # a user file that sets nothing at all is still the user's file
+                utext = rng.choice(["", "\n\n", "# only a comment\n", "# a = 1\n#[t]\n# b = 2", "   \n\t\n", "# my notes: remember to set port\n\n"])
+                ufeats.add("keyless-user-file")
         try:
             tomllib.loads(dtext)
             if utext is not None:
